@@ -4,7 +4,7 @@ from props import sess_common as sc
 
 THEOREMS = ['C16_step', 'C16_run', 'C16_consecutive', 'C16_no_repeats', 'C16_control_step', 'C16_control_history',
             'C16_control_from_start', 'C16_finding_control_ahead', 'C16_finding_control_ahead_logout',
-            'C16_finding_control_behind', 'C16_finding_no_increment_repeat']
+            'C16_regression_control_after_reject', 'C16_finding_no_increment_repeat']
 
 
 class Oracle:
@@ -71,7 +71,7 @@ class Oracle:
             if flagged or any(f.get('t') == '5' and sc.is_new(f) for f in outs) and w[0] == 'in':
                 self.dirty = 'control-ahead-after-no-increment'
             elif w[0] == 'in' and ((a.get('dec') == 'throw' and a.get('fl') == '0') or b'\x0134=' not in bytes.fromhex(w[1])):
-                self.dirty = 'control-behind-after-reject'
+                self.dirty = None            # reject exit: persists since the repair of control-behind-after-reject
             elif w[0] in ('new', 'restart', 'app', 'adm', 'batch', 'bbatch', 'fwd') or (w[0] == 'in' and a.get('dec') == 'ok' and summ['sd'] == 0):
                 self.dirty = None            # an effective step outside the excluded classes: the record must be right
             if good:
